@@ -636,10 +636,14 @@ func efaceGuarded(p *Prog, f *ssa.Function, call *ssa.Call) (bool, string) {
 				continue
 			}
 			conds, truths := controllingConds(b)
+			var trueConds []ssa.Value
 			for i, cd := range conds {
-				if !truths[i] {
-					continue
+				if truths[i] {
+					// a && b kept as a boolean (tagless switch case) stands for both
+					trueConds = append(trueConds, expandTrueConds(cd, 0)...)
 				}
+			}
+			for _, cd := range trueConds {
 				pc, ok := cd.(*ssa.Call)
 				if !ok {
 					continue
